@@ -70,7 +70,10 @@ def run(run: Run):
             run.violation(f"Pedersen generators for extension degree {t} are not a prefix of those for degree 6", rp)
         if r["Gb_compressed"] != r["Gb"] or r["H_compressed"] != r["H"]:
             run.violation("compressed forms handed to the transcript are not the encodings of the generator points", rp)
-        if "table" in r:
+        if "table_panic" in r:
+            run.violation(f"the precomputed table of the ({b}, {c}) parameter set cannot serve entry {r['table_panic']} of {2 * b * c}: "
+                          f"it has fewer rows than the generators the object hands out (the multiscalar back end panics)", rp)
+        elif "table" in r:
             cases.append(f"chk_table {coq_list([lim(x) for x in r['G']])} {coq_list([lim(x) for x in r['Hv']])} {coq_list([lim(x) for x in r['table']])}")
             meta.append(("table", rp))
             run.bump("table entries", len(r["table"]))
